@@ -18,6 +18,7 @@ import (
 	golang "github.com/golang/protobuf/proto"
 	"google.golang.org/protobuf/encoding/prototext"
 	"google.golang.org/protobuf/proto"
+	"google.golang.org/protobuf/reflect/protoreflect"
 	"google.golang.org/protobuf/types/known/durationpb"
 	"google.golang.org/protobuf/types/known/structpb"
 	"google.golang.org/protobuf/types/known/timestamppb"
@@ -68,6 +69,8 @@ type SCase struct {
 	Type  string `json:"type"`  // variant/file/Message, or "wkt:<name>"
 	Value []byte `json:"value"` // canonical encoding
 	Other []byte `json:"other"`
+	// an unrestricted value (NaN, infinities, -0.0, undeclared enum numbers allowed): only compared through Equal
+	Wild []byte `json:"wild,omitempty"`
 }
 
 type wktSpec struct {
@@ -259,6 +262,19 @@ func oracleC11(c *SCase) *ev.Failure {
 		if got, want := csproto.Equal(m, other), rt.equal(m, other); got != want {
 			return ev.Failf(shimSig("equal-differs-from-runtime", c), "Equal(m, other) = %v, %s says %v (m=%v other=%v)", got, rt.name, want, m, other)
 		}
+		if len(c.Wild) > 0 {
+			// the runtime's OWN verdict, whatever it is (gogo: NaN != NaN even for one and the same message)
+			w1, _, _ := c.newOf(c.Wild)
+			w2, _, _ := c.newOf(c.Wild)
+			for _, p := range []struct {
+				what string
+				a, b any
+			}{{"(w, w) - the same message twice", w1, w1}, {"(w, identical twin)", w1, w2}, {"(w, m)", w1, m}, {"(m, m) - the same message twice", m, m}} {
+				if got, want := csproto.Equal(p.a, p.b), rt.equal(p.a, p.b); got != want {
+					return ev.Failf(shimSig("equal-differs-from-runtime", c), "Equal%s = %v, %s says %v (w=%v)", p.what, got, rt.name, want, w1)
+				}
+			}
+		}
 		// messages of different runtimes are never equal
 		for name, w := range wkts {
 			if w.runtime != rtKey(rt) && strings.HasSuffix(name, "/Duration") {
@@ -431,7 +447,7 @@ func shimTypes() []*MsgType {
 	return out
 }
 
-const ruleC11 = "case = (message type: plain [no fast-marshal methods] and fast-marshal types of gogo / Google v1 (legacy) / Google v2 from the schema corpus, Google and gogo well-known types; value; a second value) -> differential against the OWNING runtime called directly: Unmarshal_rt(Marshal_cs(m)) == m, Unmarshal_cs(Marshal_rt(m)) == what the runtime's own Unmarshal gives (fresh and pre-populated destination), Size == len(Marshal), Clone equal and not identical, Equal == the runtime's verdict (false across runtimes), Reset => empty, MarshalText == the runtime's text in the same process, GrpcCodec == package functions, MsgType == the runtime the type was generated for; unsupported values {nil, 0, \"\", struct{}, *int, []byte, pointer to a plain struct, map, func} x every entry point: documented error / zero result, no panic; first-use classification races are run in a -race binary that re-executes itself; non-trivial = a non-empty message of a type whose dispatch path is not the first probe (plain types), or an unsupported value; distinct by (type, value)"
+const ruleC11 = "case = (message type: plain [no fast-marshal methods] and fast-marshal types of gogo / Google v1 (legacy) / Google v2 from the schema corpus, Google and gogo well-known types; value; a second value) -> differential against the OWNING runtime called directly: Unmarshal_rt(Marshal_cs(m)) == m, Unmarshal_cs(Marshal_rt(m)) == what the runtime's own Unmarshal gives (fresh and pre-populated destination), Size == len(Marshal), Clone equal and not identical, Equal == the runtime's verdict (false across runtimes; also on unrestricted values with NaN / infinities / -0.0 and with one and the same message on both sides), Reset => empty, MarshalText == the runtime's text in the same process, GrpcCodec == package functions, MsgType == the runtime the type was generated for; unsupported values {nil, 0, \"\", struct{}, *int, []byte, pointer to a plain struct, map, func} x every entry point: documented error / zero result, no panic; first-use classification races are run in a -race binary that re-executes itself; non-trivial = a non-empty message of a type whose dispatch path is not the first probe (plain types), or an unsupported value; distinct by (type, value)"
 
 func TestC11(t *testing.T) {
 	rec := ev.New("C11", ruleC11)
@@ -476,6 +492,13 @@ func TestC11(t *testing.T) {
 			// gogo's Equal is not NaN-aware: finite floats only (jsonSafe)
 			_, c.Value = canon(genDyn(rt, mt.Desc, 2, genOpts{runtime: mt.Info.Runtime, requiredProb: 10, maxMap: 1, jsonSafe: true}))
 			_, c.Other = canon(genDyn(rt, mt.Desc, 2, genOpts{runtime: mt.Info.Runtime, requiredProb: 10, maxMap: 1, jsonSafe: true}))
+			if rapid.Bool().Draw(rt, "haswild") {
+				wild := genDyn(rt, mt.Desc, 2, genOpts{runtime: mt.Info.Runtime, requiredProb: 10, maxMap: 1})
+				_, c.Wild = canon(wild)
+				if hasNaN(wild) {
+					rec.Class("equal/value-with-NaN")
+				}
+			}
 		}
 		_, _, flavour := c.newOf(nil)
 		rec.Eval(1)
@@ -491,6 +514,38 @@ func TestC11(t *testing.T) {
 		}
 		rec.Check(rt, "scase", c, oracleC11(c))
 	})
+}
+
+// hasNaN: does the message hold a NaN float/double anywhere?
+func hasNaN(m protoreflect.Message) bool {
+	found := false
+	var visit func(fd protoreflect.FieldDescriptor, v protoreflect.Value)
+	visit = func(fd protoreflect.FieldDescriptor, v protoreflect.Value) {
+		switch {
+		case fd.Message() != nil:
+			if hasNaN(v.Message()) {
+				found = true
+			}
+		case fd.Kind() == protoreflect.FloatKind || fd.Kind() == protoreflect.DoubleKind:
+			if f := v.Float(); f != f {
+				found = true
+			}
+		}
+	}
+	m.Range(func(fd protoreflect.FieldDescriptor, v protoreflect.Value) bool {
+		switch {
+		case fd.IsList():
+			for i := 0; i < v.List().Len(); i++ {
+				visit(fd, v.List().Get(i))
+			}
+		case fd.IsMap():
+			v.Map().Range(func(_ protoreflect.MapKey, mv protoreflect.Value) bool { visit(fd.MapValue(), mv); return true })
+		default:
+			visit(fd, v)
+		}
+		return !found
+	})
+	return found
 }
 
 func sortStrings(s []string) {
